@@ -89,11 +89,17 @@ func c12WriteFile(c *rt.CaseResult, env *dbx.Env, tr *conc.Tracer, key, tag stri
 				time.Sleep(100 * time.Microsecond)
 			}
 		}
+		if i == len(seq)-1 && strings.HasSuffix(label, "+settled-before-last-write") {
+			time.Sleep(15 * time.Millisecond) // the storing side's verdict is there before this Write
+		}
 		_, werr = f.Write(b)
 		if werr != nil {
 			break
 		}
 		all = append(all, b...)
+	}
+	if strings.HasSuffix(label, "+settled-before-close") {
+		time.Sleep(15 * time.Millisecond) // ... before Close sends the buffered tail
 	}
 	cerr := f.Close()
 	err = werr
@@ -194,6 +200,15 @@ func c12Seq(tier string, seed int64, idx int, scratch string) rt.CaseResult {
 			return c
 		}
 		c.AddDistinct(fmt.Sprintf("%s/%s/empty-key", modeName(mode), shapeOf(seq)))
+	}
+	// the same, with the storing side's verdict already known when the tail is sent / the last Write is made
+	for i, seq := range [][]int{{3}, {5000, 3}, {2048, 2048, 100}, {5000}, {1, 5000}, {300, 0, 1}} {
+		c.Evals++
+		label := []string{"empty-key+settled-before-close", "empty-key+settled-before-last-write"}[i/3]
+		if !c12WriteFile(&c, env, tr, "", fmt.Sprintf("c%d-es%d", idx, i), seq, false, nil, false, refmodel.EmptyKey, label) {
+			return c
+		}
+		c.AddDistinct(fmt.Sprintf("%s/%s/%s", modeName(mode), shapeOf(seq), label))
 	}
 	// storing failures while megabytes are still pending in the pipe (a bounded pipe must not
 	// leave the writer blocked when the storing side has given up)
